@@ -751,6 +751,66 @@ def judgeRun (ln : Line) (toks0 : List Tok) (calls : List (String × Nat)) (fin 
             (if n > 60 then ["long"] else [])
           .ok tags
 
+/-! ### Remembered configuration error (Lancero): Configure → Start at the RPC layer
+
+`SourceControl.ConfigureLanceroSource` stores the result of every Configure in the source (`configError`, nil on
+success); `Sample` refuses to run while it is set.  Replies: 0 = ok, 1 = error. -/
+
+structure CfgSt where
+  cfgErr : Bool      -- the last Configure was rejected
+  active : Bool      -- the source runs (and the RPC layer's flag is set)
+deriving Repr, DecidableEq
+
+inductive CfgOp where
+  | cfgBad | cfgGood | start | stop
+deriving Repr, DecidableEq
+
+def cfgStep (s : CfgSt) : CfgOp → CfgSt × Nat
+  | .cfgBad => ({ s with cfgErr := true }, 1)
+  -- a Configure of a running source is rejected too ("not Inactive"), and remembered
+  | .cfgGood => if s.active then ({ s with cfgErr := true }, 1) else ({ s with cfgErr := false }, 0)
+  | .start => if s.active then (s, 1) else if s.cfgErr then (s, 1) else ({ s with active := true }, 0)
+  | .stop => if s.active then ({ s with active := false }, 0) else (s, 1)
+
+def cfgRun (s : CfgSt) : List CfgOp → CfgSt × List Nat
+  | [] => (s, [])
+  | o :: os =>
+    let (s1, r) := cfgStep s o
+    let (s2, rs) := cfgRun s1 os
+    (s2, r :: rs)
+
+/-- `H:op.<name>.<ret>` tokens of a `cfgErr` line -/
+def parseCfgTok (t : Tok) : Option (CfgOp × Nat) :=
+  match t.site.splitOn "." with
+  | ["op", name, r] =>
+    let op := match name with
+      | "cfgBad" | "cfgDup" => some CfgOp.cfgBad
+      | "cfgGood" => some .cfgGood
+      | "start" => some .start
+      | "stop" => some .stop
+      | _ => none
+    match op, r.toNat? with
+    | some o, some v => some (o, v)
+    | _, _ => none
+  | _ => none
+
+def judgeCfg (toks : List Tok) (fin : Fin) : Verdict :=
+  match toks.mapM parseCfgTok with
+  | none => .bad "bad cfgErr token"
+  | some ors =>
+    let ops := ors.map (·.1)
+    let impl := ors.map (·.2)
+    let (s, model) := cfgRun { cfgErr := false, active := false } ops
+    if fin.hang != 0 || impl.contains 2 then .viol "C10:hang a Configure/Start/Stop request did not return (watchdog)"
+    else match firstDiff model impl 0 with
+      | some i =>
+        if ops.getD i .stop == .start && model.getD i 9 == 0 then
+          .viol s!"C10:start-refused-after-valid-configure request {i}: the source was configured correctly (after an earlier rejected configuration) but Start still fails"
+        else .diff s!"cfgErr reply {i}: impl {impl.getD i 9} model {model.getD i 9}"
+      | none =>
+        if fin.st != (if s.active then 2 else 0) then .diff s!"cfgErr final state impl {fin.st} model active={s.active}"
+        else .ok ["lancero", "cfgErr", "rpcLayer", "gated", "restart"]
+
 def runLine (ts : List String) : Verdict :=
   match P.run parseLine ts with
   | .error e => .bad e
@@ -763,6 +823,6 @@ def runLine (ts : List String) : Verdict :=
         .viol "C10:stop-on-starting-panic Stop called while the source is Starting panics (server exits)"
       else .viol s!"C10:panic-{cls} the life-cycle calls crashed the process"
     | .hang => .viol "C10:hang the case did not finish (watchdog)"
-    | .run toks0 calls fin => judgeRun ln toks0 calls fin
+    | .run toks0 calls fin => if ln.sched == "cfgErr" then judgeCfg toks0 fin else judgeRun ln toks0 calls fin
 
 end DastardV.C10
